@@ -17,6 +17,8 @@ def plan(tier):
                          "query split by branch; bwtfind + invert_bwt walk on the BWT of every single-sentinel text over {a,b}",
                    "impl": "n<=400, k<=2n, T=64 (the code's constant), alphabets up to symbol 255"},
         "assumptions": ["ndJsonDeserialize/TLC evaluate the TLA+ definitions faithfully",
+                        "bwt/less/Occ/invert are judged against the suffix array the code returned for the text "
+                        "(accepted under any admissible sentinel order), not against a spec-computed array",
                         "Occ::get is only asked for symbols of the alphabet handed to Occ::new and the sentinel "
                         "(other symbols have no table: documented precondition)",
                         "alphabets contain every text symbol (the sentinel '$' may be implicit when a larger symbol "
@@ -31,7 +33,8 @@ MANIFEST = {
     "text": "TLC exhausts every string over 3 symbols up to length 6/8 with every sampling rate 1..2n for the Occ "
             "machine (each (row,symbol) query, split by code branch) against OccDef, and every recorded bwt, less, "
             "full Occ::get table (rates incl. 63..66, 128, 129, n-1, n, 2n; n up to 400) and invert_bwt of the real "
-            "code must equal the counting definitions over the specification's own sorted-suffix order",
+            "code must equal the counting definitions relative to the suffix array the code returned (itself "
+            "validated as sorted under one consistent sentinel order)",
     "note": "bounded: MC over n<=6/8, T=2; implementation side n<=400, k<=2n; TLC's evaluator and the JSON projection "
             "of the harness are trusted",
     "ref": "sec. 5 C04",
